@@ -278,9 +278,36 @@ def _blocks(case, x, anis):
     return [x / f for f in fac]
 
 
+_ORACLE_MODELS = {}
+
+
+def _oracle_model(truth):
+    """One model instance per (class, dim, rescale, lat-lon setting), reused: all
+    parameters are overwritten through the public setters before every
+    evaluation (constructing a model costs ~3 ms for the Hankel set-up)."""
+    key = (truth["cls"], truth["dim"], truth.get("rescale"), bool(truth.get("latlon")), truth.get("geo_scale"))
+    m = _ORACLE_MODELS.get(key)
+    if m is None:
+        if len(_ORACLE_MODELS) > 64:
+            _ORACLE_MODELS.clear()
+        m = build_model(_spec_from(truth, _truth_values(truth)))
+        _ORACLE_MODELS[key] = m
+    return m
+
+
 def _curve(case, vals, anis, x):
-    m = build_model(_spec_from(case["truth"], vals))
+    """Oracle curve: isotropic variogram of a model of the truth's family with
+    parameter values ``vals`` at the oracle's own lags."""
+    truth = case["truth"]
+    m = _oracle_model(truth)
     with quiet():
+        # park var at a harmless value first: for TPL models var follows the
+        # other parameters until it is set (last) to its value
+        m.len_scale = vals["len_scale"]
+        m.nugget = vals["nugget"]
+        for k in _opt_order(truth["cls"]):
+            setattr(m, k, vals[k])
+        m.var = vals["var"]
         return np.concatenate([np.asarray(m.variogram(b), dtype=float) for b in _blocks(case, x, anis)])
 
 
@@ -937,38 +964,6 @@ def check_fit(case, rec):
                 d = abs(s0 - a) / a
                 near &= d <= NEAR * (1 + 1e-9)
                 far10 |= d >= 0.1
-    well_posed = y.size >= k_free  # at least as many data as free parameters
-    reachable = consistent and near and well_posed
-    keys = list(free) + ([f"anis{i}" for i in range(dim - 1)] if anis_fit else [])
-    sens = _sensitivity(case, keys, plan, bnd, x, y) if reachable else None
-    n_shape = sum(1 for nm in free if nm not in ("var", "len_scale", "nugget"))
-    # "identifiable configuration" (DESIGN C10 (ii)): see SMIN / MAX_SHAPE
-    identifiable = sens is not None and sens[1] >= SMIN and n_shape <= MAX_SHAPE
-    # 'dogbox' ("not recommended for problems with rank-deficient Jacobian") on a
-    # model with a kink at its range: bins beyond the range have a zero
-    # Jacobian, the Gauss-Newton model fails across the kink -> xtol stop
-    smooth_enough = not (case["method"] == "dogbox" and _kinked(truth))
-    eps_g = None
-    if reachable and identifiable:
-        sc_max = max([1.0] + [_scale(nm, tv) for nm in free if nm not in ("var", "nugget")])
-        eps_g = GTOL * _sigma_eff(case, x, dim) ** 2 * sc_max * math.sqrt(max(k_free, 1)) / (sill_t**2 * sens[1])
-    scale_ok = eps_g is not None and eps_g <= CURVE_TOL
-    expect_recovery = reachable and identifiable and smooth_enough and (scale_ok or not KNOWN["scipy_abs_tolerance"])
-    rec.note("smin", None if sens is None else sens[1])
-    constraint_active = (
-        any(stat[nm] != "fit" for nm in names) or plan["sill"] is not None or bool(case["bounds"]) or mode != "iso" or not isinstance(anis_arg, bool)
-    )
-    rec.nontrivial(bool(constraint_active and far10))
-    if expect_recovery:
-        rec.label("recovery_expected")
-    elif reachable and identifiable and smooth_enough:
-        rec.label("reachable_but_abs_tolerance_region")
-        rec.exclude("scipy_abs_tolerance")
-    elif reachable:
-        rec.label("reachable_but_" + ("multi_shape" if n_shape > MAX_SHAPE else "ill_conditioned" if not identifiable else "kinked_dogbox"))
-    else:
-        rec.label("underdetermined" if consistent and near else "consistent_far_start" if consistent else "truth_unreachable")
-
     # ---- start of the optimisation as documented (for the monotone-cost check)
     start_vals, start_anis = None, list(pre["anis"])
     if all(starts.get(nm) is not None for nm in free):
@@ -999,17 +994,75 @@ def check_fit(case, rec):
             ok &= sv_["nugget"] >= 0 and sv_["var"] > 0
         if ok:
             start_vals = sv_
+    well_posed = y.size >= k_free  # at least as many data as free parameters
+    reachable = consistent and near and well_posed
+    keys = list(free) + ([f"anis{i}" for i in range(dim - 1)] if anis_fit else [])
+    sens = _sensitivity(case, keys, plan, bnd, x, y) if reachable else None
+    n_shape = sum(1 for nm in free if nm not in ("var", "len_scale", "nugget"))
+    # "identifiable configuration" (DESIGN C10 (ii)): see SMIN / MAX_SHAPE
+    identifiable = sens is not None and sens[1] >= SMIN and n_shape <= MAX_SHAPE
+    # models with a kink at their range are not differentiable in len_scale
+    # where a bin crosses the range: gradient based solvers stop there with
+    # gtol/xtol "satisfied" (observed for 'trf' and 'dogbox').  Recovery is
+    # demanded only if no bin lies within the +-30 % box around the range
+    # (and not for 'dogbox', whose Gauss-Newton model is rank deficient for
+    # the bins beyond the range).
+    smooth_enough = True
+    if _kinked(truth):
+        lref = _lref(truth, dr)
+        rel = np.concatenate(_blocks(case, x, truth["anis"])) / lref
+        smooth_enough = case["method"] != "dogbox" and not np.any((rel > 0.6) & (rel < 1.45))
+    eps_g = None
+    if reachable and identifiable:
+        sc_max = max([1.0] + [_scale(nm, tv) for nm in free if nm not in ("var", "nugget")])
+        eps_g = GTOL * _sigma_eff(case, x, dim) ** 2 * sc_max * math.sqrt(max(k_free, 1)) / (sill_t**2 * sens[1])
+    scale_ok = eps_g is not None and eps_g <= CURVE_TOL
+    # robust losses have f_scale = 1 in data units: where the weighted start
+    # residuals exceed 1 the cost is L1-like (non-convex in the non-linear
+    # parameters, ftol stops on plateaus); recovery is demanded only in the
+    # quadratic regime of the loss
+    sig = _sigma_vec(case, x, dim)
+    robust_ok = case["loss"] == "linear" or (
+        start_vals is not None and float(np.max(np.abs((_curve(case, start_vals, start_anis, x) - y) / sig))) <= 1.0
+    )
+    expect_recovery = reachable and identifiable and smooth_enough and robust_ok and (scale_ok or not KNOWN["scipy_abs_tolerance"])
+    # optimum on a bound of a free parameter (nugget=0, len_low=0, alpha=2, var=sill)?
+    at_bound = any(
+        (tv[nm] - bnd[nm][0]) <= 1e-9 * _scale(nm, tv) or (bnd[nm][1] - tv[nm]) <= 1e-9 * _scale(nm, tv) for nm in free
+    ) or (plan["var_cap"] is not None and "var" in free and plan["var_cap"] - tv["var"] <= 1e-9 * sill_t)
+    tol_c = CURVE_TOL * sill_t + (ABS_TOL * float(np.max(sig)) if at_bound else 0.0)
+    rec.note("smin", None if sens is None else sens[1])
+    constraint_active = (
+        any(stat[nm] != "fit" for nm in names) or plan["sill"] is not None or bool(case["bounds"]) or mode != "iso" or not isinstance(anis_arg, bool)
+    )
+    rec.nontrivial(bool(constraint_active and far10))
+    if expect_recovery:
+        rec.label("recovery_expected")
+    elif reachable and identifiable and smooth_enough and not robust_ok:
+        rec.label("reachable_but_robust_loss_L1_regime")
+    elif reachable and identifiable and smooth_enough:
+        rec.label("reachable_but_abs_tolerance_region")
+        rec.exclude("scipy_abs_tolerance")
+    elif reachable:
+        rec.label("reachable_but_" + ("multi_shape" if n_shape > MAX_SHAPE else "ill_conditioned" if not identifiable else "kink_in_box"))
+    else:
+        rec.label("underdetermined" if consistent and near else "consistent_far_start" if consistent else "truth_unreachable")
+
     try:
         with quiet():
             res = model.fit_variogram(xx, yy, **kw)
     except RuntimeError as exc:
         # scipy: "Optimal parameters not found: The maximum number of function evaluations is exceeded."
         if expect_recovery:
+            ref_err = _reference_fit(case, names, free, anis_fit, plan, bnd, start_vals, start_anis, x, y, sig)
+            if ref_err is None or ref_err > tol_c:
+                rec.label("scipy_limit_confirmed_by_reference_fit")
+                return
             raise Violation(
-                f"fit from a start within 30% of the truth did not converge: {exc}",
+                f"fit from a start within 30% of the truth did not converge ({exc}) while the same scipy call on the oracle's curve reaches the data to {ref_err:.3g}",
                 tags=dict(tags, kind="no_convergence"),
             ) from exc
-        rec.label("no_convergence(far start)")
+        rec.label("no_convergence(recovery not demanded)")
         return
     except Exception as exc:  # noqa: BLE001
         vtags = dict(tags, kind="exception", exc=type(exc).__name__)
@@ -1145,7 +1198,6 @@ def check_fit(case, rec):
         post = dict(post, var=vals["var"], nugget=vals["nugget"])
 
     # ---- the optimiser never returns something worse than its start
-    sig = _sigma_vec(case, x, dim)
     c1 = _cost(case["loss"], resid / sig)
     if start_vals is not None:
         c0 = _cost(case["loss"], (_curve(case, start_vals, start_anis, x) - y) / sig)
@@ -1162,18 +1214,20 @@ def check_fit(case, rec):
     if not expect_recovery:
         return
     err = float(np.max(np.abs(resid)))
-    # optimum on a bound of a free parameter (nugget=0, len_low=0, alpha=2, var=sill)?
-    at_bound = any(
-        (tv[nm] - bnd[nm][0]) <= 1e-9 * _scale(nm, tv) or (bnd[nm][1] - tv[nm]) <= 1e-9 * _scale(nm, tv) for nm in free
-    ) or (plan["var_cap"] is not None and "var" in free and plan["var_cap"] - tv["var"] <= 1e-9 * sill_t)
     rec.note("stats", {"at_bound": at_bound, "sill": sill_t, "smin": None if sens is None else sens[1], "err": err / sill_t, "cls": cls, "method": case["method"], "k": k_free})
-    tol_c = CURVE_TOL * sill_t + (ABS_TOL * float(np.max(sig)) if at_bound else 0.0)
     rec.label("optimum_on_bound" if at_bound else "optimum_interior")
-    if err > tol_c and _is_local_optimum(case, names, free, anis_fit, plan, bnd, post, x, y, sig, c1):
-        # curve_fit legitimately ended in a secondary optimum of the (weighted,
-        # robust) cost: no neighbouring parameter set has a lower oracle cost
-        rec.label("ended_in_secondary_optimum")
-        return
+    if err > tol_c:
+        if _is_local_optimum(case, names, free, anis_fit, plan, bnd, post, x, y, sig, c1):
+            # curve_fit legitimately ended in a secondary optimum of the (weighted,
+            # robust) cost: no neighbouring parameter set has a lower oracle cost
+            rec.label("ended_in_secondary_optimum")
+            return
+        ref_err = _reference_fit(case, names, free, anis_fit, plan, bnd, start_vals, start_anis, x, y, sig)
+        if ref_err is None or ref_err > tol_c:
+            # the same scipy call on the oracle's own curve does not get there either
+            rec.label("scipy_limit_confirmed_by_reference_fit")
+            return
+        rec.note("reference_fit_err", ref_err)
     rec.discrepancy("curve", err, tol_c)
     require(
         err <= tol_c,
@@ -1211,6 +1265,62 @@ def check_fit(case, rec):
             dict(tags, kind="param", par=k),
         )
     rec.label("params_all_asserted" if n_assert == len(keys) else ("params_some_asserted" if n_assert else "params_none_asserted"))
+
+
+def _reference_fit(case, names, free, anis_fit, plan, bnd, start_vals, start_anis, x, y, sig):
+    """The documented optimisation (same start, bounds, sigma, method, loss,
+    max_nfev, scipy defaults otherwise) on the oracle's own curve.
+
+    Returns max |curve - data| at its result, or None when scipy gives up
+    (RuntimeError).  Used only to tell a limitation of scipy's solver from a
+    defect of fit_variogram after a recovery assertion failed."""
+    from scipy.optimize import curve_fit
+
+    if start_vals is None:
+        return None
+    stat = plan["status"]
+    n_anis = len(start_anis)
+    keys = list(free) + ([f"anis{i}" for i in range(n_anis)] if anis_fit else [])
+    lo, hi, p0 = [], [], []
+    for k in keys:
+        if k.startswith("anis"):
+            l_, h_, _ty = bnd["anis"]
+            p0.append(start_anis[int(k[4:])])
+        else:
+            l_, h_, _ty = bnd[k]
+            if k == "var" and plan["var_cap"] is not None:
+                h_ = plan["var_cap"]
+            p0.append(start_vals[k])
+        lo.append(l_)
+        hi.append(h_)
+
+    def f(_x, *theta):
+        vals, anis = dict(start_vals), list(start_anis)
+        for k, v, l_, h_ in zip(keys, theta, lo, hi):
+            # stay off the (possibly open) bounds of the model
+            v = min(max(v, np.nextafter(l_, np.inf)), np.nextafter(h_, -np.inf))
+            if k.startswith("anis"):
+                anis[int(k[4:])] = v
+            else:
+                vals[k] = v
+        if plan["sill"] is not None and stat["nugget"] == "derived" and stat["var"] == "fit":
+            vals["nugget"] = max(plan["sill"] - vals["var"], 0.0)
+        try:
+            return _curve(case, vals, anis, x)
+        except ValueError:
+            return np.full(y.size, 1e300)
+
+    kw = dict(p0=p0, bounds=(lo, hi), method=case["method"], loss=case["loss"], max_nfev=case["max_eval"])
+    if case["weights"]["kind"] != "none":
+        kw.update(sigma=sig, absolute_sigma=True)
+    try:
+        with quiet():
+            popt, _pcov = curve_fit(f, np.arange(y.size, dtype=float), y, **kw)
+    except RuntimeError:
+        return None
+    except ValueError:
+        return None
+    return float(np.max(np.abs(f(None, *popt) - y)))
 
 
 def _is_local_optimum(case, names, free, anis_fit, plan, bnd, post, x, y, sig, c1):
